@@ -1,13 +1,15 @@
 #!/bin/bash
 # Replay every saved seeded change against the CURRENT checks (quick tier, no demo / unit-test rebuild): each must be reported.
-#   tools/regress_seeds.sh [jobs]         -> one line per seed: <seed> caught|MISSED <first key>; exit 1 if any is missed
+#   tools/regress_seeds.sh [jobs]         -> one line per seed: <seed> caught|TIE-ONLY|MISSED <first key> (TIE-ONLY: reported, but only as a
+#                                            broken theorem / translator / correspondence without a failing input); exit 1 if any is missed
 J=${1:-6}
 cd "$(dirname "$0")/.."
 ls -d seeded/C*-* | sort -V | while read d; do grep -q '"retired"' $d/meta.json || echo $d; done | xargs -P "$J" -I{} sh -c '
   d={}; id=$(basename $d); P=${id%%-*}; CHK=$P
   CHK=$(python3 tools/seed_check.py $d)
   NODEMO=1 tools/mt.sh rg-$id $d $CHK > /var/tmp/mt/rg-$id.log 2>&1
-  if grep -q "^VIOLATION" /var/tmp/mt/rg-$id.log; then echo "$id caught $(grep -m1 "  key:" /var/tmp/mt/rg-$id.log)"; else echo "$id MISSED"; fi
+  if grep "^VIOLATION" /var/tmp/mt/rg-$id.log | grep -qv "no-failing-input-found"; then echo "$id caught $(grep -m1 "  key:" /var/tmp/mt/rg-$id.log)";
+  elif grep -q "^VIOLATION" /var/tmp/mt/rg-$id.log; then echo "$id TIE-ONLY $(grep -m1 "  key:" /var/tmp/mt/rg-$id.log)"; else echo "$id MISSED"; fi
   git -C /repo worktree remove --force /var/tmp/mt/rg-$id/wt >/dev/null 2>&1; rm -rf /var/tmp/mt/rg-$id
 ' | sort -V | tee /var/tmp/mt/regress.summary
 ! grep -q MISSED /var/tmp/mt/regress.summary
